@@ -439,6 +439,20 @@ func init() {
 	reg("runtime.GOMAXPROCS", four)
 	reg("runtime.NumCPU", four)
 	reg("runtime.NumGoroutine", four)
+	reg("internal/bytealg.MakeNoZero", func(in *Interp, s *State, c *callCtx) (Value, []*State, bool) {
+		n := c.args[0].(*term.Term)
+		if !n.IsConst() {
+			in.unsup("MakeNoZero with symbolic length")
+		}
+		arr := &Agg{Elems: make([]Value, int(n.Val))}
+		z := in.ts.Const(8, 0)
+		for i := range arr.Elems {
+			arr.Elems[i] = z
+		}
+		return &Slice{Arr: in.alloc(s, arr), Len: int(n.Val), Cap: int(n.Val)}, nil, true
+	})
+	reg("internal/abi.NoEscape", func(in *Interp, s *State, c *callCtx) (Value, []*State, bool) { return c.args[0], nil, true })
+	reg("internal/abi.Escape", func(in *Interp, s *State, c *callCtx) (Value, []*State, bool) { return c.args[0], nil, true })
 	reg("runtime.KeepAlive", nop)
 	reg("runtime.SetFinalizer", nop)
 	reg("time.Sleep", nop)
@@ -494,7 +508,40 @@ func init() {
 			if r.IsConst() {
 				return in.ts.Const(32, uint64(uint32(mapf(rune(int32(r.Val)))))), nil, true
 			}
-			return in.rangeMap(name, r, mapf), nil, true
+			// case split on the interval of constant delta that contains r (fork per feasible interval)
+			ivs := in.mapIntervals(name, mapf)
+			in.sol.Define(r)
+			res, err := in.check(s)
+			if err != nil || res != smt.Sat {
+				if res == smt.Unsat {
+					s.status = AssumeFalse
+					return nil, nil, true
+				}
+				in.unsup("solver unknown in %s", name)
+			}
+			v, verr := in.sol.Value(r)
+			in.sol.Pop()
+			if verr != nil {
+				in.unsup("%s: %v", name, verr)
+			}
+			sv := int64(int32(uint32(v)))
+			// find interval (intervals are over the signed rune value)
+			lo, hi, delta := int64(-1<<31), int64(1<<31-1), int32(0)
+			for _, iv := range ivs {
+				if sv >= int64(iv.lo) && sv <= int64(iv.hi) {
+					lo, hi, delta = int64(iv.lo), int64(iv.hi), iv.delta
+					break
+				}
+			}
+			cond := in.ts.And(in.ts.Sle(in.ts.Const(32, uint64(uint32(int32(lo)))), r), in.ts.Sle(r, in.ts.Const(32, uint64(uint32(int32(hi))))))
+			ok, o := in.decide(s, cond)
+			if o != nil {
+				return nil, one(o), false
+			}
+			if !ok {
+				in.unsup("%s: model value outside its own interval", name)
+			}
+			return in.ts.Add(r, in.ts.Const(32, uint64(uint32(delta)))), nil, true
 		})
 	}
 	cases("unicode.ToLower", unicode.ToLower)
@@ -629,14 +676,76 @@ func (in *Interp) rangeMap(name string, r *term.Term, f func(rune) rune) *term.T
 	}
 	tabMu.Unlock()
 	res := r
-	// negative runes and > MaxRune map to themselves (both ToLower and ToUpper)
+	// negative runes and > MaxRune map to themselves (ToLower, ToUpper, SimpleFold alike)
+	mb := r.MaxBits()
+	domMax := int64(1)<<32 - 1
+	if mb <= 21 {
+		domMax = int64(1)<<uint(mb) - 1
+	}
+	maxOut := domMax
 	for i := len(rs) - 1; i >= 0; i-- {
 		m := rs[i]
+		if int64(m.lo) > domMax {
+			continue
+		}
+		hi := int64(m.hi)
+		if hi > domMax {
+			hi = domMax
+		}
+		if o := hi + int64(m.delta); o > maxOut {
+			maxOut = o
+		}
 		c := in.ts.And(in.ts.Ule(in.ts.Const(32, uint64(m.lo)), r), in.ts.Ule(r, in.ts.Const(32, uint64(m.hi))))
 		res = in.ts.Ite(c, in.ts.Add(r, in.ts.Const(32, uint64(uint32(m.delta)))), res)
 	}
+	if mb <= 21 {
+		// the result is < 2^k: state it with an identity mask so that later folding sees the bound
+		k := 0
+		for int64(1)<<uint(k) <= maxOut {
+			k++
+		}
+		if k < 32 {
+			res = in.ts.BAnd(res, in.ts.Const(32, uint64(1)<<uint(k)-1))
+		}
+	}
 	return res
 }
+
+// mapIntervals partitions the whole int32 range into maximal intervals on which f(x)-x is constant.
+func (in *Interp) mapIntervals(name string, f func(rune) rune) []mapRange {
+	tabMu.Lock()
+	defer tabMu.Unlock()
+	if iv, ok := ivCache[name]; ok {
+		return iv
+	}
+	var out []mapRange
+	out = append(out, mapRange{lo: -1 << 31, hi: -1, delta: 0})
+	cur := mapRange{lo: 0, hi: 0, delta: int32(f(0) - 0)}
+	for x := rune(1); x <= unicode.MaxRune; x++ {
+		d := int32(f(x) - x)
+		if d == cur.delta {
+			cur.hi = x
+			continue
+		}
+		out = append(out, cur)
+		cur = mapRange{lo: x, hi: x, delta: d}
+	}
+	out = append(out, cur)
+	out = append(out, mapRange{lo: unicode.MaxRune + 1, hi: 1<<31 - 1, delta: 0})
+	// merge neighbours with equal delta
+	var m []mapRange
+	for _, r := range out {
+		if len(m) > 0 && m[len(m)-1].delta == r.delta && m[len(m)-1].hi+1 == r.lo {
+			m[len(m)-1].hi = r.hi
+			continue
+		}
+		m = append(m, r)
+	}
+	ivCache[name] = m
+	return m
+}
+
+var ivCache = map[string][]mapRange{}
 
 // ufApply: uninterpreted function via Ackermann expansion over the applications seen on this path.
 func (in *Interp) ufApply(s *State, name string, args []*term.Term, w int) *term.Term {
